@@ -127,17 +127,16 @@ IntText(x, o) == LET dg == IntDigits(x)
 \* the implementation's notation rule (pretty_dtoa breaks -6 / 6): positional iff 1e-6 <= |rounded| < 1e6
 Positional(r) == r.e \in -6..5
 
-FloatText(x, o) ==
-    LET r == RoundSig(x, o.sig)
-        k == Len(r.ds)
-    IN SignChars(r) \o
+FloatTextR(r) ==
+    SignChars(r) \o
        (IF Positional(r)
         THEN IF r.e >= 0
-             THEN IF k <= r.e + 1 THEN Chars(r.ds \o Zeros(r.e + 1 - k))
-                  ELSE Chars(SubSeq(r.ds, 1, r.e + 1)) \o <<".">> \o Chars(SubSeq(r.ds, r.e + 2, k))
+             THEN IF Len(r.ds) <= r.e + 1 THEN Chars(r.ds \o Zeros(r.e + 1 - Len(r.ds)))
+                  ELSE Chars(SubSeq(r.ds, 1, r.e + 1)) \o <<".">> \o Chars(SubSeq(r.ds, r.e + 2, Len(r.ds)))
              ELSE <<"0", ".">> \o Chars(Zeros(-r.e - 1)) \o Chars(r.ds)
-        ELSE <<DigitChar(r.ds[1]), ".">> \o (IF k = 1 THEN <<"0">> ELSE Chars(SubSeq(r.ds, 2, k)))
+        ELSE <<DigitChar(r.ds[1]), ".">> \o (IF Len(r.ds) = 1 THEN <<"0">> ELSE Chars(SubSeq(r.ds, 2, Len(r.ds))))
              \o <<"e">> \o (IF r.e >= 0 THEN <<"+">> ELSE <<"-">>) \o NatChars(IF r.e >= 0 THEN r.e ELSE -r.e))
+FloatText(x, o) == FloatTextR(RoundSig(x, o.sig))
 
 KwNaN == <<"N", "a", "N">>
 KwInf == <<"i", "n", "f">>
@@ -167,51 +166,59 @@ RunEnd(t, i) == IF i > Len(t) \/ ~IsDigitChar(t[i]) THEN i - 1 ELSE RunEnd(t, i 
 
 Invalid == [ok |-> FALSE, v |-> Zero]
 
-ReadLiteral(neg, b) ==
-    LET a      == RunEnd(b, 1)                                  \* integer digits b[1..a]
-        hasdot == a + 1 <= Len(b) /\ b[a + 1] = "."
-        f0     == IF hasdot THEN a + 2 ELSE a + 1
-        fe     == IF hasdot THEN RunEnd(b, f0) ELSE a           \* fraction digits b[f0..fe]
-        p      == fe + 1
-        hasexp == p <= Len(b) /\ b[p] \in {"e", "E"}
-        hassgn == hasexp /\ p + 1 <= Len(b) /\ b[p + 1] \in {"+", "-"}
-        x0     == IF hassgn THEN p + 2 ELSE p + 1
-        xe     == IF hasexp THEN RunEnd(b, x0) ELSE fe          \* exponent digits b[x0..xe]
-        valid  == /\ (a >= 1 \/ (hasdot /\ fe >= f0))
-                  /\ hasexp => xe >= x0
-                  /\ xe = Len(b)
-    IN IF ~valid THEN Invalid
-       ELSE LET mant == Vals(SubSeq(b, 1, a)) \o (IF hasdot THEN Vals(SubSeq(b, f0, fe)) ELSE <<>>)
-                ex   == IF hasexp THEN NatOfDigits(Vals(SubSeq(b, x0, xe)), 0) ELSE 0
-                sx   == IF hassgn /\ b[p + 1] = "-" THEN -ex ELSE ex
-            IN [ok |-> TRUE, v |-> Norm(neg, mant, (a - 1) + sx)]
+\* (TLC re-evaluates LET definitions on every use: the scan is staged through operator parameters instead)
+\* a: end of the integer digits b[1..a];  f0..fe: fraction digits;  x0..xe: exponent digits
+RL4(neg, b, a, hasdot, f0, fe, hasexp, hassgn, x0, xe) ==
+    IF ~(/\ (a >= 1 \/ (hasdot /\ fe >= f0))
+         /\ (hasexp => xe >= x0)
+         /\ xe = Len(b))
+    THEN Invalid
+    ELSE LET mant == Vals(SubSeq(b, 1, a)) \o (IF hasdot THEN Vals(SubSeq(b, f0, fe)) ELSE <<>>)
+             ex   == IF hasexp THEN NatOfDigits(Vals(SubSeq(b, x0, xe)), 0) ELSE 0
+         IN [ok |-> TRUE, v |-> Norm(neg, mant, (a - 1) + (IF hassgn /\ b[fe + 2] = "-" THEN -ex ELSE ex))]
+RL3(neg, b, a, hasdot, f0, fe, hasexp, hassgn, x0) ==
+    RL4(neg, b, a, hasdot, f0, fe, hasexp, hassgn, x0, IF hasexp THEN RunEnd(b, x0) ELSE fe)
+RL2(neg, b, a, hasdot, f0, fe, hasexp) ==
+    \* p = fe + 1 is the position of e/E
+    IF hasexp /\ fe + 2 <= Len(b) /\ b[fe + 2] \in {"+", "-"}
+    THEN RL3(neg, b, a, hasdot, f0, fe, hasexp, TRUE, fe + 3)
+    ELSE RL3(neg, b, a, hasdot, f0, fe, hasexp, FALSE, fe + 2)
+RL1(neg, b, a, hasdot, f0, fe) ==
+    RL2(neg, b, a, hasdot, f0, fe, fe + 1 <= Len(b) /\ b[fe + 1] \in {"e", "E"})
+RL0(neg, b, a) ==
+    IF a + 1 <= Len(b) /\ b[a + 1] = "."
+    THEN RL1(neg, b, a, TRUE, a + 2, RunEnd(b, a + 2))
+    ELSE RL1(neg, b, a, FALSE, a + 1, a)
+ReadLiteral(neg, b) == RL0(neg, b, RunEnd(b, 1))
 
-ReadBack(text, sep) ==
-    LET t   == Strip(text, sep)
-        neg == t # <<>> /\ t[1] = "-"
-        b   == IF neg THEN Tail(t) ELSE t
+RB1(t, neg) ==
+    LET b == IF neg THEN Tail(t) ELSE t
     IN IF b = KwInf THEN [ok |-> TRUE, v |-> Infv(neg)]
        ELSE IF b = KwNaN THEN [ok |-> ~neg, v |-> NaNv]
        ELSE ReadLiteral(neg, b)
+RB0(t) == RB1(t, t # <<>> /\ t[1] = "-")
+ReadBack(text, sep) == RB0(Strip(text, sep))
 
 HasE(text) == \E i \in 1..Len(text) : text[i] \in {"e", "E"}
 
 ---------------------------------------------------------------------------
 (* the property as a relation between the displayed value x (any spelling), the options and the text *)
 
-Judge(x0, o, text) ==
-    LET x == Canon(x0)
-    IN CASE x.cls = "nan" -> text = KwNaN
-         [] x.cls = "inf" -> text = (IF x.neg THEN <<"-">> ELSE <<>>) \o KwInf
-         [] x.cls = "fin" /\ IntBranch(x) ->
-                \* all digits, documented grouping; a negative zero may or may not show its sign
-                \/ text = IntText(x, o)
-                \/ IsZero(x) /\ x0.neg /\ text = <<"-">> \o IntText(x, o)
-         [] OTHER -> LET rb == ReadBack(text, o.sep)
-                     IN rb.ok /\ rb.v \in Admissible(x, o.sig)
+ReadOK(rb, x, n) == rb.ok /\ rb.v \in Admissible(x, n)
+
+\* x canonical, negzero: the value is a negative zero
+JudgeC(x, negzero, o, text) ==
+    CASE x.cls = "nan" -> text = KwNaN
+      [] x.cls = "inf" -> text = (IF x.neg THEN <<"-">> ELSE <<>>) \o KwInf
+      [] x.cls = "fin" /\ IntBranch(x) ->
+             \* all digits, documented grouping; a negative zero may or may not show its sign
+             \/ text = IntText(x, o)
+             \/ negzero /\ text = <<"-">> \o IntText(x, o)
+      [] OTHER -> ReadOK(ReadBack(text, o.sep), x, o.sig)
+
+Judge(x0, o, text) == JudgeC(Canon(x0), x0.neg /\ IsZero(x0), o, text)
 
 \* implementation detail, not part of the property (reported as MODEL-DRIFT only)
-NotationOK(x0, o, text) ==
-    LET x == Canon(x0)
-    IN (x.cls = "fin" /\ ~IntBranch(x)) => (HasE(text) <=> ~Positional(RoundSig(x, o.sig)))
+NotationC(x, o, text) == (x.cls = "fin" /\ ~IntBranch(x)) => (HasE(text) <=> ~Positional(RoundSig(x, o.sig)))
+NotationOK(x0, o, text) == NotationC(Canon(x0), o, text)
 =============================================================================
